@@ -139,7 +139,11 @@ func workloadDocs(w *Workload) []Doc {
 		case KRC:
 			api = "v1"
 		}
-		ctrl := fmt.Sprintf("  - {apiVersion: %s, kind: %s, name: %s, uid: \"u-%s\", controller: true}\n", q(api), ok, q(w.Name), w.Name)
+		ctrlFor := func(api string) string {
+			return fmt.Sprintf("  - {apiVersion: %s, kind: %s, name: %s, uid: \"u-%s\", controller: true}\n", q(api), ok, q(w.Name), w.Name)
+		}
+		ctrl := ctrlFor(api)
+		oldAPI := map[string]string{"apps/v1": "extensions/v1beta1", "batch/v1": "batch/v1beta1", "v1": "v1"}[api]
 		extraFalse := "  - {apiVersion: \"v1\", kind: ConfigMap, name: \"some-other-owner\", uid: \"u-other\", controller: false}\n"
 		extraOmitted := "  - {apiVersion: \"v1\", kind: ConfigMap, name: \"some-other-owner\", uid: \"u-other\"}\n"
 		owner := "  ownerReferences:\n"
@@ -169,7 +173,11 @@ func workloadDocs(w *Workload) []Doc {
 				}
 				pw = &cp
 			}
-			docs = append(docs, Doc{Kind: "Pod", Ns: w.Ns, Name: pn, YAML: podYAML(pw, pn, owner)})
+			po := owner
+			if w.MixedOwnerAPI && i%2 == 1 {
+				po = strings.Replace(owner, ctrl, ctrlFor(oldAPI), 1)
+			}
+			docs = append(docs, Doc{Kind: "Pod", Ns: w.Ns, Name: pn, YAML: podYAML(pw, pn, po)})
 		}
 		return docs
 	}
